@@ -12,7 +12,6 @@ import (
 
 // notApplicable: properties that static analysis cannot address here (DESIGN.md §6).
 var notApplicable = map[string]string{
-	"C17": "Equivalence of an optimised matcher with regexp semantics is a language-equivalence question over runtime patterns (DESIGN §6).",
 }
 
 func writeManifest() {
@@ -91,7 +90,7 @@ func writeManifest() {
 			"kind_free_text": "custom static analyser over go/packages + go/types + go/cfg (+ go/ssa, VTA call graph for reachability rules); rule tables per property in checker/c*.go",
 		}},
 		"checks":         checks,
-		"not_applicable": nas,
+		"not_applicable": nonNilNAs(nas),
 		"notes":          "All checks are static: they load and type-check /repo's working tree on every run and report a specific construct. Exit 2 + 'UNDECIDED' means the analysis could not decide (type error, vanished anchor); it is never reported as a pass. Known findings: /verif/known_findings.json.",
 	}
 	b, _ := json.MarshalIndent(m, "", " ")
@@ -99,4 +98,11 @@ func writeManifest() {
 		panic(err)
 	}
 	fmt.Printf("MANIFEST.json: %d checks, %d not applicable (%v)\n", len(checks), len(nas), eng.SortedKeys(registry))
+}
+
+func nonNilNAs(n []na) []na {
+	if n == nil {
+		return []na{}
+	}
+	return n
 }
